@@ -254,7 +254,7 @@ def validate_before_accept(prog: Program, rep, x: ExcFlow) -> None:
         rep.check(ok, "check-eval-complete", ce.qualname, a, f"check_eval evaluates `{a}`" + ("" if a in ("obj", "obj_grad") else " whenever the problem has constraints"), ce.loc())
 
 
-def typestate(prog: Program, rep, x: ExcFlow) -> None:
+def typestate(prog: Program, rep, x: ExcFlow, only_flow: bool = False):
     """evaluation-triggering members are used only on validated iterates outside handlers."""
     x2 = validated_flow(prog)
     it = prog.cls("pygradflow.iterate.Iterate")
@@ -270,7 +270,8 @@ def typestate(prog: Program, rep, x: ExcFlow) -> None:
 
     # which Iterate members are safe on a validated receiver
     unsafe_members = sorted(m.name for m in it.methods.values() if _esc_classes(x2, m.qualname, (EVAL,)))
-    rep.note(f"Iterate members that may raise EvalError even on a validated receiver: {unsafe_members}")
+    if not only_flow:
+        rep.note(f"Iterate members that may raise EvalError even on a validated receiver: {unsafe_members}")
 
     def validated_receiver(fi: FuncInfo, si, recv: ast.AST) -> bool:
         if not isinstance(recv, ast.Name):
@@ -303,6 +304,8 @@ def typestate(prog: Program, rep, x: ExcFlow) -> None:
         return None
 
     x3 = ExcFlow(prog, site_filter=filt)
+    if only_flow:
+        return x3
     bad = _esc_classes(x3, sv.qualname, (EVAL,))
     if bad:
         shown = set()
